@@ -239,10 +239,21 @@ def observe_schema(text, case):
     for k, l in labels:
         by_label.setdefault(l, []).append(k)
 
+    # known finding KF.C05.shapesns: with a custom shapes_namespace the references keep the default namespace;
+    # such a reference is resolved through the default namespace and marked "@~key"
+    default_labels = {}
+    if case["cfg"]["shapesNs"] != M.SHAPES_NS:
+        for k, l in labels:
+            if l.startswith(case["cfg"]["shapesNs"]):
+                default_labels.setdefault(M.SHAPES_NS + l[len(case["cfg"]["shapesNs"]):], []).append(k)
+
     def kind(k):
         if k.startswith("@"):
             ks = by_label.get(k[1:])
-            return "@" + (ks[0] if ks else "?" + k[1:])
+            if ks:
+                return "@" + ks[0]
+            ks = default_labels.get(k[1:])
+            return ("@~" + ks[0]) if ks else ("@?" + k[1:])
         return k
     shapes = []
     for sh in pj["shapes"]:
